@@ -1003,7 +1003,8 @@ func TestC35(t *testing.T) {
 	rec := ev.New("C35", "stateful client scripts against a real ServeConn connection: legal prefix (requests, DATA, trailers, client RST_STREAM, harness-controlled handler completion, PING/SETTINGS/WINDOW_UPDATE/PRIORITY), precondition set-up, one illegal step of 11 kinds (16 malformed-request variants), legal suffix; sync (PING barrier per step, RFC error class asserted) and async (back-to-back, racing handler completion) schedules. non-trivial: >=1 stream is open or half-closed when the illegal step is sent; distinct by script")
 	rapid.Check(t, func(rt *rapid.T) {
 		maxStreams := rapid.SampledFrom([]uint32{1, 2, 3, 5, 0}).Draw(rt, "maxStreams")
-		kind := rapid.SampledFrom(append([]string{"none"}, c35IllegalKinds...)).Draw(rt, "illegal")
+		// malformed requests have 16 variants: give the kind more weight
+		kind := rapid.SampledFrom(append([]string{"none", "X-malformed-req", "X-malformed-req", "X-malformed-req", "X-malformed-req"}, c35IllegalKinds...)).Draw(rt, "illegal")
 		if kind == "X-over-limit" && maxStreams == 0 {
 			maxStreams = 2
 		}
